@@ -7,7 +7,7 @@ CONSTANTS
   MaxEvents = 2
   MaxLeaves = 4
   MaxOps = 4
-  Faults = {"stmt", "ctx"}
+  Faults = {"stmt", "ctx", "commit"}
   AllowGap = FALSE
   AllowRestart = TRUE
   AllowReorg = FALSE
